@@ -246,6 +246,8 @@ pub fn worker_main(prop: &dyn Prop, env: &Env, from: u64, to: u64, step: u64, pr
             let mut lock = stdout.lock();
             let _ = writeln!(lock, "{}", line);
             let _ = lock.flush();
+            // (the driver may stop the batch early on many failures: keep its counters current)
+            since_flush = 500;
         }
         since_flush += 1;
         if since_flush >= 500 {
